@@ -179,7 +179,14 @@ def gen_item(rng, cg, budget, in_math, depth, nested):
         opt = None
         if cg['verbenvs'][vn] and rng.random() < 0.5:
             opt = [('T', 'opt')]
-        return ('VE', vn, opt, rng.choice(['', '\n']) + ''.join(rng.choice('ab {}$\\%\n') for _ in range(rng.randint(0, 5))))
+        body = rng.choice(['', '\n', '\n', ' ', '\n  ']) + ''.join(rng.choice('ab {}$\\%\n[]') for _ in range(rng.randint(0, 5)))
+        if rng.random() < 0.3:
+            # a first line that looks like an optional argument (list comprehension, [section] header, [[attribute]]): after a
+            # newline or blank it is listing text, also when the environment takes an optional argument that is not given
+            body = rng.choice(['\n', ' ', '\n ', '']) + rng.choice(['[x*x for x in r]', '[section]', '[[nodiscard]]', '[1, 2]', '[', '[]']) + rng.choice(['\n', '\nk = v\n', ' b', ''])
+        if cg['verbenvs'][vn] and opt is None and body[:1] == '[':
+            body = '\n' + body          # directly after \begin{...} a bracket IS the optional argument
+        return ('VE', vn, opt, body)
     if cg.get('verbmacro') and (cg is CTXG['default'] or cg is CTXG['A']):
         d = rng.choice('|!+/')
         return ('V', d, ''.join(rng.choice('ab {}$\\%') for _ in range(rng.randint(0, 4))))
